@@ -271,7 +271,21 @@ def c09(ck, F, tier):
     guarded(ck, rp.lit_rule, F)
 
 
-PROPS = {"C08": c08, "C09": c09, "C22": c22, "C34": c34, "C21": c21, "C05": c05, "C28": c28, "C10": c10, "C29": c29, "C17": c17, "C01": c01, "C02": c02, "C03": c03, "C04": c04, "C23": c23, "C26": c26}
+def c16(ck, F, tier):
+    import rules_paren as rp
+    ck.explanation = (
+        "Static decision of the second printer used by cut & paste (to_string_moved): the same exhaustive PAREN cells as C09 "
+        "(grammar admissible sets from Parser::parse_* vs wrap decisions of to_string_moved by path interpretation), and the "
+        "separator tables (SEP) of both printers against the tokens the parser expects per decimal separator. A disagreement "
+        "matters beyond pasted cells: get_external_formula_updates_for_cut rewrites any bystander formula whose "
+        "to_string_moved text differs from its display text. Retargeting arithmetic of references is not decided.")
+    ck.rule("PAREN-moved", "to_string_moved parenthesises every child the grammar could not have produced bare", floor=500, exhaustive=True)
+    ck.rule("SEP", "separators chosen by the printers are the tokens the parser expects in that locale", floor=6, exhaustive=True)
+    guarded(ck, rp.paren_rule, F, "PAREN-moved", "move_formula::to_string_moved", exports=(None,))
+    guarded(ck, rp.sep_rule, F)
+
+
+PROPS = {"C08": c08, "C16": c16, "C09": c09, "C22": c22, "C34": c34, "C21": c21, "C05": c05, "C28": c28, "C10": c10, "C29": c29, "C17": c17, "C01": c01, "C02": c02, "C03": c03, "C04": c04, "C23": c23, "C26": c26}
 
 
 def run(pid, tier):
